@@ -179,3 +179,49 @@ Proof.
   exists b0, b. split; [exact E0|]. split; [rewrite (bfold32_eq ops abs0 b0 Hinv0 Hdom Hb); exact Eb|].
   cbv zeta. repeat split; try assumption; lia.
 Qed.
+
+(** * a sufficient condition in the words of the property: the final Offset and every position set fit in int32 *)
+Lemma astep_off_mono a o : bop_dom o = true -> aoff a <= aoff (astep a o).
+Proof.
+  destruct o as [ps size|p v]; cbn [bop_dom astep aoff]; intros H.
+  - rewrite !andb_true_iff in H. destruct H as [_ H]. apply Z.leb_le in H. lia.
+  - lia.
+Qed.
+
+Lemma astep_bits_incl a o q : In q (abits a) -> In q (abits (astep a o)).
+Proof.
+  destruct o as [ps size|p v]; cbn [astep abits]; intros H.
+  - apply in_or_app. now left.
+  - destruct (Z.odd v); [apply in_or_app; now left|exact H].
+Qed.
+
+Lemma fold_off_mono ops : forall a, forallb bop_dom ops = true -> aoff a <= aoff (fold_left astep ops a).
+Proof.
+  induction ops as [|o ops IH]; intros a H; [cbn; lia|].
+  cbn [forallb] in H. apply andb_true_iff in H. destruct H as [Ho H].
+  cbn [fold_left]. pose proof (astep_off_mono a o Ho). specialize (IH (astep a o) H). lia.
+Qed.
+
+Lemma fold_bits_incl ops : forall a q, In q (abits a) -> In q (abits (fold_left astep ops a)).
+Proof.
+  induction ops as [|o ops IH]; intros a q H; [exact H|].
+  cbn [fold_left]. apply IH. now apply astep_bits_incl.
+Qed.
+
+Theorem hist_bounded_final ops : forall a,
+  forallb bop_dom ops = true ->
+  aoff (fold_left astep ops a) <= MaxI32 ->
+  (forall q, In q (abits (fold_left astep ops a)) -> q + 1 <= MaxI32) ->
+  hist_bounded a ops.
+Proof.
+  induction ops as [|o ops IH]; intros a Hdom Hoff Hbits; [exact I|].
+  cbn [forallb] in Hdom. apply andb_true_iff in Hdom. destruct Hdom as [Ho Hdom].
+  cbn [fold_left] in Hoff, Hbits. cbn [hist_bounded]. split; [|now apply IH].
+  pose proof (fold_off_mono ops (astep a o) Hdom) as Hmono.
+  destruct o as [ps size|p v]; cbn [step_bounded].
+  - change (aoff (astep a (BExtend ps size))) with (aoff a + size) in Hmono. split; [lia|]. intros Hne.
+    assert (Hin : In (aoff a + last ps 0) (abits (astep a (BExtend ps size)))).
+    { cbn [astep abits]. apply in_or_app. right. apply in_map. now apply last_In. }
+    specialize (Hbits _ (fold_bits_incl ops _ _ Hin)). lia.
+  - change (aoff (astep a (BSet p v))) with (Z.max (aoff a) (p + 1)) in Hmono. lia.
+Qed.
